@@ -1,16 +1,11 @@
 use crate::*;
-#[kani::proof]
-#[kani::unwind(20)]
-fn c09_w2048() { c09::time_enc(2048, 2051, true) }
-#[kani::proof]
-#[kani::unwind(20)]
-fn c09_w2048_utc() { c09::time_enc(2048, 2051, false) }
-#[kani::proof]
-#[kani::unwind(20)]
-fn c09_offind() { c09::time_offset_independent(2048, 2051) }
-#[kani::proof]
-#[kani::unwind(20)]
-fn c09_tooff() { c09::time_to_offset_matches_oracle(2048, 2051) }
-#[kani::proof]
-#[kani::unwind(20)]
-fn c09_full() { c09::time_enc(-1, 9999, true) }
+fn shape(san: &'static [u8], oracles: u32) -> cert::CertShape { cert::CertShape { issuance: 0, aki: false, san, ku: 0, eku: &[], nc: 0, nc_perm: &[], nc_excl: &[], crl_dps: &[], is_ca: 0, custom: 0, serial: 2, serial_b0: 1, kid: 0, kid_len: 2, ikid: 0, ikid_len: 3, strlen: 2, alg: 5, ialg: 5, sign_fails: false, oracles } }
+#[kani::proof] #[kani::unwind(40)]
+#[kani::stub(std::hash::RandomState::new, env::random_state_stub)]
+pub fn s2() { cert::run(&shape(&[1], 2)); }
+#[kani::proof] #[kani::unwind(40)]
+#[kani::stub(std::hash::RandomState::new, env::random_state_stub)]
+pub fn s8() { cert::run(&shape(&[1], 8)); }
+#[kani::proof] #[kani::unwind(700)]
+#[kani::stub(std::hash::RandomState::new, env::random_state_stub)]
+pub fn s31() { cert::run(&shape(&[1], 31)); }
